@@ -137,7 +137,7 @@ def near_gap(draw, scale=1.0):
 
 @st.composite
 def cases(draw):
-    fam = draw(st.sampled_from(("iso", "iso", "dup", "stopping", "any", "any", "near")))
+    fam = draw(st.sampled_from(("iso", "iso", "dup", "stopping", "any", "any", "near", "renamed_twin")))
     if fam == "near":
         if draw(st.booleans()):
             # thresholds that are not powers of ten included: the number of digits is floor(-log10(threshold))
@@ -151,6 +151,9 @@ def cases(draw):
         g = draw(with_duplicates())
     elif fam == "stopping":
         g = draw(games.stopping_games(min_inner=2, max_inner=9, dyadic=True))
+    elif fam == "renamed_twin":
+        # two states of the same owner with the same successor sequence under different action names
+        g = draw(games.twin_games(renamed=True, min_inner=2, max_inner=8, dyadic=True, max_actions=3))["game"]
     else:
         g = draw(games.any_games(max_states=8, dyadic=True, max_pairs=256))
         return dict(game=g, api="solver", theta=draw(st.sampled_from((1e-3, 1e-4, 1e-6, 1e-6, 1e-8))))
